@@ -185,6 +185,8 @@ package plugin
 //@   ensures a0 == nil && c.config.SecureConfig != nil && c.config.Reattach != nil && nn(c.config.Cmd) + nn(c.config.RunnerFunc) == 0 ==> err == ErrSecureConfigAndReattach   [C14.excl]
 //@   ensures a0 == nil && c.config.GRPCBrokerMultiplex && c.config.Reattach != nil ==> err != nil && launches == old(launches)   [C14.excl]
 //@   ensures a0 == nil && c.config.Reattach == nil && sel_reached && sel == 2 && hs_ok6(c, the_runner, line) && c.config.GRPCBrokerMultiplex && proto_of(line) == "grpc" && (N(line) <= 6 || (pbool_ok(P(line, 6)) && !pbool_val(P(line, 6)))) ==> err == ErrGRPCBrokerMuxNotSupported || wraps(err, ErrGRPCBrokerMuxNotSupported)   [C14.mux]
+//@   at call (ClientConfig).RunnerFunc#1 bind sd0: Str := arg2
+//@   ensures rf_calls != old(rf_calls) ==> c.unixSocketCfg.socketDir == sd0   [C18.kill] [C05.d]
 
 //@ func NewClient
 //@   nopanic [C19.total] [C17.total]
@@ -358,7 +360,7 @@ package plugin
 //@   ensures launches == old(launches) && rf_calls == old(rf_calls)   [C19.kill]
 //@   ensures r0 == nil || runner_id(r0) == "" ==> kills == old(kills) && removed == old(removed) && waited == old(waited) && launches == old(launches)   [C04.noop]
 //@   ensures r0 != nil && runner_id(r0) != "" ==> waited[c.clientWaitGroup] && (d0 != "" ==> removed[d0])   [C04.end] [C18.kill]
-//@   ensures r0 != nil && runner_id(r0) != "" ==> grace || kills[r0] >= old(kills)[r0] + 1   [C04.end]
+//@   ensures r0 != nil && runner_id(r0) != "" ==> grace || kills[r0] >= old(kills)[r0] + 1   [C04.end] [C15.kill]
 //@   ensures grace ==> kills[r0] == old(kills)[r0]   [C04.grace]
 //@   ensures r0 != nil && runner_id(r0) != "" && ak == nil ==> kills[r0] >= old(kills)[r0] + 1   [C04.force] [C05.c]
 //@   local close_ret: Bool := false
@@ -794,6 +796,12 @@ package plugin
 
 //@ pred port_env_ok(k) := getenv(k) == "" || (pint_ok(getenv(k)) && 0 <= pint_val(getenv(k)) && pint_val(getenv(k)) <= 65535)
 //@ pred port_env(k) := ite(getenv(k) == "", 0, pint_val(getenv(k)))
+
+//@ func unixSocketConfigFromEnv
+//@   nopanic [C17.total]
+//@   nonblocking
+//@   modifies nothing
+//@   ensures result.Group == getenv("PLUGIN_UNIX_SOCKET_GROUP") && result.socketDir == getenv("PLUGIN_UNIX_SOCKET_DIR")   [C17.acts] [C18.wire]
 
 //@ func serverListener_tcp
 //@   nopanic [C17.total] [C16.total] [C18.total]
@@ -1394,7 +1402,7 @@ package plugin
 //@   bounded peer-dead [C03.c] [C18.gor]
 //@   wait call io.Copy#1 copies from an in-memory reader into the caller-supplied sync writer; it ends when that writer accepts the chunk (caller-owned, assumed non-blocking)
 //@   requires c.log != nil && stdout != nil && stderr != nil
-//@   modifies heap_fresh, hdata, rd_done, $LOG, run_pend
+//@   modifies heap_fresh, hdata, rd_done, $LOG, run_pend, recv_failed
 //@   loop#1 frame fresh_only
 //@   after call (plugin.GRPCStdio_StreamStdioClient).Recv#1 bind sd: Ref := ret0
 //@   local run_pend: Bool := false
@@ -1409,6 +1417,9 @@ package plugin
 //@   at call io.Copy#1 assert cast(sd, "*plugin.StdioData").Channel == 2 ==> arg0 == stderr   [C11.demux]
 //@   at call io.Copy#1 assert cast(sd, "*plugin.StdioData").Channel == 1 || cast(sd, "*plugin.StdioData").Channel == 2   [C11.demux]
 //@   at call io.Copy#1 assert arg1 == iface(cast(brd, "*bytes.Reader"))   [C11.demux]
+//@   local recv_failed: Bool := false
+//@   after call (plugin.GRPCStdio_StreamStdioClient).Recv#1 set recv_failed := ret1 != nil
+//@   ensures c.stdioClient == nil || recv_failed   [C11.total] [C11.demux]
 
 //@ func copyStream
 //@   nopanic [C11.total]
